@@ -247,19 +247,27 @@ LooseSlots(P, Q, ss, os, i) ==
 \* run are outside the rewritten fragment, so they are judged strictly
 \* (blocks nested in them must have their first instance rewritten, C01).
 RECURSIVE Judge(_, _, _, _, _, _), JudgeSlots(_, _, _, _, _, _, _), JudgeList(_, _, _, _, _, _, _),
-          JudgeStmts(_, _, _, _, _, _)
+          JudgeStmts(_, _, _, _, _, _), Unexplained(_, _, _, _, _)
 
 F(c, path) == {[c |-> c, at |-> path]}
 
 Inner(l) == SubSeq(l, 2, Len(l) - 1)
 
+\* s is an instance at an admissible position but o is not the instantiated
+\* '+' pattern.  If o is s with (at most) nested instances rewritten, the
+\* site was "missed"; otherwise it was rewritten to something else.
+Unexplained(P, Q, s, o, path) ==
+  IF s.k # o.k \/ Len(s.s) # Len(o.s) THEN F("wrongrepl", path)
+  ELSE LET below == JudgeSlots(P, Q, s.s, o.s, 1, path, 0)
+       IN IF \A f \in below : f.c = "missed" THEN F("missed", path) \cup below
+          ELSE F("wrongrepl", path)
+
 Judge(P, Q, s, o, ty, path) ==
   LET r == PMatch(P, s) IN
   IF r.ok /\ Admissible(ty, TopKind(Q, r.b, s))
   THEN IF IsStmts(Q) THEN JudgeStmts(P, Q, s, o, r.b, path)
-       ELSE LET so == Strip(o) IN
-            IF SubstRel(P, Q, Q, r.b, s, so) THEN {}
-            ELSE IF so = Strip(s) THEN F("missed", path) ELSE F("wrongrepl", path)
+       ELSE IF SubstRel(P, Q, Q, r.b, s, Strip(o)) THEN {}
+            ELSE Unexplained(P, Q, s, o, path)
   ELSE IF s.k = "ParenExpr" /\ o.k # "ParenExpr" THEN Judge(P, Q, s.s[2].v[1], o, "Expr", Append(path, 2))
   ELSE IF s.k # o.k \/ Len(s.s) # Len(o.s) THEN F("collateral", path)
   ELSE JudgeSlots(P, Q, s.s, o.s, 1, path, 0)
@@ -292,18 +300,30 @@ JudgeStmts(P, Q, s, o, b, path) ==
       ol   == o.s[li].v
       nmid == Len(ol) - Len(pre) - Len(post)
       lpath == Append(path, li)
-  IN IF Strip(o) = Strip(s) /\ ~SubstRel(P, Q, Q, b, s, Strip(o)) THEN F("missed", path)
-     ELSE IF o.s[li].t # "l" \/ nmid < 0 THEN F("wrongrepl", path)
+  IN IF o.s[li].t # "l" \/ nmid < 0 THEN Unexplained(P, Q, s, o, path)
      ELSE LET opre  == SubSeq(ol, 1, Len(pre))
               omid  == StripSeq(SubSeq(ol, Len(pre) + 1, Len(pre) + nmid), 1)
               opost == SubSeq(ol, Len(pre) + nmid + 1, Len(ol))
               \* paths of post elements are reported relative to the input list
               shift == Len(s.s[li].v) - Len(post)
-          IN (IF SubstList(P, Q, Inner(Q.s[1].v), 1, b, omid, 1, s) THEN {} ELSE F("wrongrepl", path))
-             \cup JudgeList(P, Q, pre, opre, 1, "Stmt", lpath)
+          IN IF ~SubstList(P, Q, Inner(Q.s[1].v), 1, b, omid, 1, s) THEN Unexplained(P, Q, s, o, path)
+             ELSE JudgeList(P, Q, pre, opre, 1, "Stmt", lpath)
              \cup { [c |-> f.c, at |-> lpath \o <<f.at[Len(lpath) + 1] + shift>> \o SubSeq(f.at, Len(lpath) + 2, Len(f.at))] :
                       f \in JudgeList(P, Q, post, opost, 1, "Stmt", lpath) }
              \cup JudgeSlots(P, Q, s.s, o.s, 1, path, li)
+
+\* number of outermost instances at admissible positions (coverage measure)
+RECURSIVE CountSites(_, _, _, _), CountSeq(_, _, _, _, _)
+CountSites(P, Q, s, ty) ==
+  LET r == PMatch(P, s) IN
+  IF r.ok /\ Admissible(ty, TopKind(Q, r.b, s)) THEN 1
+  ELSE CountSeq(P, Q, s.s, 1, 0)
+CountSeq(P, Q, ss, i, acc) ==
+  IF i > Len(ss) THEN acc
+  ELSE LET sl == ss[i]
+           RECURSIVE Sum(_, _)
+           Sum(k, a) == IF k > Len(sl.v) THEN a ELSE Sum(k + 1, a + CountSites(P, Q, sl.v[k], sl.ty))
+       IN CountSeq(P, Q, ss, i + 1, Sum(1, acc))
 
 \* ------------------------------------------- I-layer: what the engine does --
 \* internal/engine/file.go: every node of the ORIGINAL tree is tested in
@@ -372,10 +392,13 @@ IRewrite(P, Q, s, ty) ==
 \* C04/greedy-elision: P matches but the greedy, non-backtracking section
 \* search of slice_dots.go does not.
 RECURSIVE SubtermAt(_, _)
+\* total: a path that ends at a slot (not at a node) denotes the owning node
 SubtermAt(t, path) ==
   IF Len(path) = 0 THEN t
-  ELSE IF t.s[path[1]].t = "n" THEN SubtermAt(t.s[path[1]].v[1], Tail(path))
-  ELSE SubtermAt(t.s[path[1]].v[path[2]], Tail(Tail(path)))
+  ELSE LET sl == t.s[path[1]] IN
+       IF sl.t = "n" THEN SubtermAt(sl.v[1], Tail(path))
+       ELSE IF sl.t = "l" /\ Len(path) >= 2 /\ path[2] <= Len(sl.v) THEN SubtermAt(sl.v[path[2]], Tail(Tail(path)))
+       ELSE t
 
 GreedyMiss(P, s) == PMatch(P, s).ok /\ ~IMatch(P, s).ok
 
